@@ -69,7 +69,7 @@ def run(prop, tier):
         ck.violation("harness_build", log, "harness h1_uspsc no longer compiles against the current tree (correspondence broken): " + log[-300:], no_input=True)
         return ck.finish()
 
-    ntr, nops = (100, 250) if tier == "quick" else (1000, 400)
+    ntr, nops = (100, 250) if tier == "quick" else (500, 300)
     seeds = [ck.seed] if tier == "quick" else [ck.seed, ck.seed + 1000, ck.seed + 2000]
     st = {"lines": 0, "traces": 0, "nontrivial": 0, "known_hits": 0}
     mismatches, oracle_hits, samples, stats_lines = [], [], [], []
